@@ -611,13 +611,13 @@ func main() {
 	for runs < f.N {
 		var cs []Case
 		switch x := r.Intn(20); {
-		case x < 9:
+		case x < 10:
 			cs = []Case{genSeq(r, id)}
 			id++
 		case x < 14:
-			cs = genExhaustive(r, &id, false, 6)
-		case x < 18:
-			cs = genExhaustive(r, &id, true, 6)
+			cs = genExhaustive(r, &id, false, 4)
+		case x < 17:
+			cs = genExhaustive(r, &id, true, 4)
 		default:
 			cs = []Case{genLegacy(r, id)}
 			id++
